@@ -59,6 +59,7 @@ type PathResult struct {
 	WitnessNames []string
 	WitnessVals []string
 	Choices []int
+	GlobalStrings []string
 	TimerNondet bool
 	UFChoice    bool // the path chose an uninterpreted-function atom to be true: not realisable natively
 }
